@@ -1,7 +1,10 @@
 """C12 — MainLoop delivers input in order and always restores the terminal (fault injection).
 Monitor: spec/MainLoopOps.tla; trace spec: spec/MainLoopTrace.tla; generator: spec/MainLoop.tla.
 Every session runs in a forked child: real pty, real raw_display.Screen, real MainLoop, one of the
-six event loops under the virtual clock of vf/loops.py."""
+six event loops under the virtual clock of vf/loops.py.  A session fixes what the process had before
+run() (signal dispositions, the terminal on file descriptor 0 or elsewhere) and may call run() twice;
+the terminal output is interleaved with the logical events, so every draw is judged against what the
+reference terminal shows afterwards (garbled where a full repaint was asked for)."""
 from __future__ import annotations
 
 import concurrent.futures as cf
@@ -32,6 +35,8 @@ SPLITTABLE = {"up": 3, "meta": 2, "mouseH": 9, "mouseU": 9}     # inputs of seve
 GAP_MS = 5              # Gap of MainLoop.tla: time between the two reads of a split input
 COMPLETE_WAIT_MS = 125  # Screen.complete_wait
 CALLBACKS = ["filter", "keypress", "mouse_event", "unhandled", "alarm", "pipe", "render"]
+SIGNALS = ["SIGWINCH", "SIGTSTP", "SIGCONT"]      # the signals whose handlers a raw display Screen touches
+RERUN_LOOPS = ("select", "asyncio", "tornado", "zmq")      # loops whose run() may be called again (a twisted reactor cannot be restarted; trio drops its tasks)
 
 
 def kind_str(kind, cut=0, also="-"):
@@ -47,7 +52,9 @@ def parse_kind(k):
 
 
 def _session(cfg):
-    """Runs in a forked child.  cfg: loop, events [(ms, kind)], fault (kind, index, exc)|None, pop_ups, mouse, swap."""
+    """Runs in a forked child.  cfg: loop, events [(ms, kind)], fault (kind, index, exc)|None, pop_ups, mouse, swap;
+    sigs: dispositions of SIGNALS before run() ("ign" | "dfl" | "py": a Python handler); stdin: the terminal input is file descriptor 0
+    (how applications normally run); again: run() is called a second time on the same MainLoop when the first run is over."""
     import fcntl
     import struct
     import termios
@@ -63,8 +70,19 @@ def _session(cfg):
     termios.tcsetattr(slave, termios.TCSANOW, attrs)
     os.set_blocking(master, False)
     probe_fd = os.dup(slave)  # the harness' own handle on the tty (a loop may close the one it was given)
-    env = loops.Env(max_waits=300)
+    in_fd = slave
+    if cfg.get("stdin"):
+        os.dup2(slave, 0)     # the terminal is the process's standard input, as for a program started from a shell
+        in_fd = 0
+    env = loops.Env(max_waits=400)
     out = bytearray()
+    marks = []      # (index into env.ev, bytes written to the terminal so far): where the output stands when an event is logged
+
+    def mark(**e):
+        """Log an event that has to be seen in order with the bytes written to the terminal."""
+        drain()
+        env.log(**e)
+        marks.append((len(env.ev) - 1, len(out)))
 
     def drain():
         try:
@@ -176,13 +194,27 @@ def _session(cfg):
         maybe_swap("unhandled")
         return False
 
-    before_sig = {s: signal.getsignal(s) for s in (signal.SIGWINCH, signal.SIGTSTP, signal.SIGCONT)}
+    def py_handler(signum, frame):
+        pass
+
+    dispositions = {"ign": signal.SIG_IGN, "dfl": signal.SIG_DFL, "py": py_handler}
+    for name, d in zip(SIGNALS, cfg.get("sigs") or ["dfl"] * len(SIGNALS)):
+        signal.signal(getattr(signal, name), dispositions[d])
+
+    def sig_state():
+        """The dispositions now, as names: "ign" | "dfl" | "py" (the handler installed above) | "other"."""
+        res = []
+        for name in SIGNALS:
+            h = signal.getsignal(getattr(signal, name))
+            res.append(next((k for k, v in dispositions.items() if h is v or h == v), "other"))
+        return res
+
+    before_sig = sig_state()
     before_tty = termios.tcgetattr(probe_fd)
-    outcome = {"t": "run_end", "outcome": "return", "exc": ""}
     screen = None
     try:
         evl = ad.make()
-        fin = os.fdopen(slave, "r", closefd=False)
+        fin = os.fdopen(in_fd, "r", closefd=False)
         fout = os.fdopen(os.dup(slave), "w")
         screen_cls = raw.Screen
         if legacy:
@@ -192,31 +224,37 @@ def _session(cfg):
                     raise AttributeError("hook_event_loop")
             screen_cls = LegacyScreen
         screen = screen_cls(input=fin, output=fout, bracketed_paste_mode=bool(cfg.get("paste")), focus_reporting=bool(cfg.get("focusrep")))
-        env.realfds[slave] = 1
+        env.realfds[in_fd] = 1
         env.realfds[screen._resize_pipe_rd.fileno()] = 2
-        orig_draw = screen.draw_screen
+        orig_draw, orig_clear = screen.draw_screen, screen.clear
 
         def draw_screen(size, canvas):
             r = orig_draw(size, canvas)
-            txt = b"".join(t for _, _, t in next(iter(canvas.content()))).decode()
-            g = int(txt[1:].split()[0]) if txt.startswith("g") else -1
-            env.log(t="draw", gen=g)
+            rows = [b"".join(t for _, _, t in row).decode() for row in canvas.content()]
+            g = int(rows[0][1:].split()[0]) if rows[0].startswith("g") else -1
+            # the canvas drawn (rows of code points); the bytes written so far are put in front of this event
+            mark(t="draw", gen=g, rows=[[ord(c) for c in row] for row in rows])
             return r
 
+        def clear():
+            mark(t="clear")      # a full repaint is asked for: what the terminal shows counts as unknown from here on
+            return orig_clear()
+
         screen.draw_screen = draw_screen
+        screen.clear = clear
         ml = urwid.MainLoop(probe, [], screen, handle_mouse=cfg.get("mouse", True), input_filter=input_filter,
                             unhandled_input=unhandled, event_loop=None if legacy else evl, pop_ups=cfg.get("pop_ups", False))
 
         def alarm_cb(loop, data):
             if hasattr(ad, "sync"):
                 ad.sync()
-            env.log(t="alarm")
+            env.log(t="alarm", changes=not hits("alarm"))      # a callback that raises does not get to change the application state
             maybe_raise("alarm")
             probe.bump()
             maybe_swap("alarm")
 
         def pipe_cb(data):
-            env.log(t="pipe")
+            env.log(t="pipe", changes=not hits("pipe"))
             maybe_raise("pipe")
             probe.bump()
             return True
@@ -253,7 +291,7 @@ def _session(cfg):
                 def act():
                     cur[0] = W - 2 if cur[0] == W else W
                     fcntl.ioctl(slave, termios.TIOCSWINSZ, struct.pack("HHHH", cur[1], cur[0], 0, 0))
-                    env.log(t="arrive_resize")
+                    mark(t="arrive_resize", w=cur[0], h=cur[1])
                     signal.raise_signal(signal.SIGWINCH)
 
                 env.actions.append((ms / 1000.0, act))
@@ -280,32 +318,51 @@ def _session(cfg):
             env.log(t="raise", kind="exit")
             raise urwid.ExitMainLoop()
 
-        ml.set_alarm_in(0.2, final_exit)
-        try:
-            ml.run()
-            if getattr(ad, "stuck", False):
+        def one_run():
+            outcome = {"t": "run_end", "outcome": "return", "exc": ""}
+            ml.set_alarm_in(0.2, final_exit)
+            try:
+                ml.run()
+                if getattr(ad, "stuck", False):
+                    outcome["outcome"] = "stuck"
+            except loops.Stuck:
                 outcome["outcome"] = "stuck"
-        except loops.Stuck:
-            outcome["outcome"] = "stuck"
-        except BaseException as ex:  # noqa: BLE001
-            outcome["outcome"] = "raise"
-            # "VfError" stands for: the injected exception object itself came out of run(), unchanged
-            outcome["exc"] = "VfError" if (ex is injected[0] or isinstance(ex, loops.VfError)) else type(ex).__name__
-            outcome["msg"] = str(ex)[:100]
+            except BaseException as ex:  # noqa: BLE001
+                outcome["outcome"] = "raise"
+                # "VfError" stands for: the injected exception object itself came out of run(), unchanged
+                outcome["exc"] = "VfError" if (ex is injected[0] or isinstance(ex, loops.VfError)) else type(ex).__name__
+                outcome["msg"] = str(ex)[:100]
+            env.log(**outcome)
+            # what has reached the terminal by the time run() is over (nothing is flushed on the screen's behalf)
+            drain()
+            time.sleep(0.01)
+            mark(t="final", termios_same=termios.tcgetattr(probe_fd) == before_tty, sigs_before=before_sig, sigs_after=sig_state(),
+                 started=bool(screen.started))
+            return outcome["outcome"]
+
+        how = one_run()
+        if cfg.get("again") and not legacy and cfg["loop"] in RERUN_LOOPS and how != "stuck":
+            # run() is called again on the same MainLoop object: the session goes on on a new alternate screen
+            env.log(t="rerun")
+            one_run()
     except BaseException as ex:  # noqa: BLE001  # harness failure
-        return {"error": f"{type(ex).__name__}: {ex}"}
-    env.log(**outcome)
-    # what has reached the terminal by the time run() is over (nothing is flushed on the screen's behalf)
-    drain()
-    time.sleep(0.01)
-    drain()
-    toks = [t for t in term.tokenize(out.decode("utf-8", "replace")) if t["t"] != "unknown"]
-    unknown = [t for t in term.tokenize(out.decode("utf-8", "replace")) if t["t"] == "unknown"]
-    ev = env.ev + toks
-    after_tty = termios.tcgetattr(probe_fd)
-    after_sig = {s: signal.getsignal(s) for s in before_sig}
-    ev.append({"t": "final", "termios_same": after_tty == before_tty, "signals_same": all(after_sig[s] == before_sig[s] for s in before_sig),
-               "started": bool(screen.started), "unknown_sequences": len(unknown)})
+        import traceback
+
+        return {"error": f"{type(ex).__name__}: {ex} {traceback.format_exc()[-600:]}"}
+    # the bytes written to the terminal, as tokens, between the events in the order in which everything happened
+    ev, pos, unknown = [], 0, 0
+    at = dict(marks)
+    for i, e in enumerate(env.ev):
+        if i in at:
+            for t in term.tokenize(out[pos:at[i]].decode("utf-8", "replace")):
+                if t["t"] == "unknown":
+                    unknown += 1
+                else:
+                    ev.append(t)
+            pos = at[i]
+            if e["t"] == "final":
+                e["unknown_sequences"] = unknown
+        ev.append(e)
     return {"w": W, "h": H, "cfg": cfg, "ev": ev}
 
 
@@ -321,8 +378,20 @@ def _child(cfg, conn):
         os._exit(0)
 
 
+def _preimport():
+    """Import in the parent what every session needs: the forked children inherit the modules instead of importing urwid, twisted,
+    tornado, trio and zmq once per session (most of a session's CPU time).  Importing installs nothing (no reactor, no handlers)."""
+    import importlib
+
+    for name in ("urwid", "urwid.display.raw", "urwid.event_loop.select_loop", "urwid.event_loop.asyncio_loop", "urwid.event_loop.tornado_loop",
+                 "urwid.event_loop.twisted_loop", "urwid.event_loop.trio_loop", "urwid.event_loop.zmq_loop", "tornado.platform.asyncio",
+                 "twisted.internet.asyncioreactor", "trio", "trio.testing", "zmq", "fcntl", "termios", "struct"):
+        importlib.import_module(name)
+
+
 def run_sessions(cfgs, jobs=14, timeout=60):
     """Each session in its own forked process (fresh signal handlers / tty state)."""
+    _preimport()
     ctx = mp.get_context("fork")
     results = [None] * len(cfgs)
     pending = list(enumerate(cfgs))
@@ -380,7 +449,13 @@ def random_cfg(rng, loop):
     if rng.random() < 0.75:
         fault = (rng.choice(CALLBACKS), rng.randint(1, 3), rng.choice(["exit", "error", "error", "base"]))
     return {"loop": loop, "events": events, "fault": fault, "pop_ups": rng.random() < 0.3, "mouse": rng.random() < 0.8,
-            "paste": rng.random() < 0.4, "focusrep": rng.random() < 0.4, "swap": rng.choice([None, None, None, *SWAPS])}
+            "paste": rng.random() < 0.4, "focusrep": rng.random() < 0.4, "swap": rng.choice([None, None, None, *SWAPS]), **_surroundings(rng, loop)}
+
+
+def _surroundings(rng, loop, p_again=0.2):
+    """What a session finds and how it is run: signal dispositions before run(), the terminal on standard input, run() called twice."""
+    return {"sigs": [rng.choice(["ign", "dfl", "dfl", "py"]) for _ in SIGNALS], "stdin": rng.random() < 0.4,
+            "again": loop in RERUN_LOOPS and rng.random() < p_again}
 
 
 INPUT_KINDS = ["keyH", "keyU", "keyX", "up", "ctrlL", "two", "mouseH", "mouseU", "meta"]
@@ -430,21 +505,61 @@ def split_cfg(rng, loop):
             "paste": rng.random() < 0.3, "focusrep": rng.random() < 0.3, "swap": rng.choice([None, None] + SWAPS)}
 
 
+def restore_cfg(rng, loop):
+    """Restoration: whatever the process had before run() -- each signal ignored, at its default action or with a Python handler; the
+    terminal on file descriptor 0 or on another one -- a short session that ends by an exception from any callback (or ExitMainLoop)
+    leaves exactly that behind; sometimes run() is called once more afterwards."""
+    events = sorted((rng.choice([0, 10, 20]), rng.choice(["keyH", "keyU", "keyU", "mouseU", "alarm", "pipe", "resize", "two"])) for _ in range(rng.randint(1, 3)))
+    # mostly a callback that the session does reach
+    reached = {"keyH": ["filter", "keypress"], "keyU": ["filter", "keypress", "unhandled"], "two": ["filter", "keypress", "unhandled"],
+               "mouseU": ["filter", "mouse_event", "unhandled"], "alarm": ["alarm"], "pipe": ["pipe"], "resize": ["filter"]}
+    cb = rng.choice(reached[rng.choice(events)[1]] + ["render"]) if rng.random() < 0.8 else rng.choice(CALLBACKS)
+    fault = (cb, rng.randint(1, 2) if cb == "render" or rng.random() < 0.2 else 1, rng.choice(["error", "error", "base", "exit"])) if rng.random() < 0.9 else None
+    return {"loop": loop, "events": events, "fault": fault, "pop_ups": rng.random() < 0.2, "mouse": True, "paste": rng.random() < 0.3,
+            "focusrep": rng.random() < 0.3, "swap": None, "sigs": [rng.choice(["ign", "ign", "dfl", "py"]) for _ in SIGNALS],
+            "stdin": rng.random() < 0.6, "again": loop in RERUN_LOOPS and rng.random() < 0.25}
+
+
+def redraw_cfg(rng, loop):
+    """Forced repaints of a widget that has not changed: ctrl-L (REDRAW_SCREEN: screen.clear()) with nothing else going on in that
+    batch, two resizes arriving together (back at the old size), run() called a second time (a new alternate screen buffer); unrelated
+    inputs before and after.  What the terminal shows after the next draw must be the canvas drawn."""
+    times = sorted(rng.sample([0, 10, 20, 30, 40], rng.randint(1, 3)))
+    events = []
+    for t in times:
+        k = rng.choice(["ctrlL", "ctrlL", "resize2", "keyU", "keyH", "alarm", "up"])
+        if k == "resize2":
+            events += [(t, "resize"), (t, "resize")]
+        elif k == "ctrlL" and rng.random() < 0.3:
+            events.append((t, kind_str("ctrlL", 0, rng.choice(["keyU", "keyX", "up"]))))
+        else:
+            events.append((t, k))
+    return {"loop": loop, "events": events, "fault": _late_fault(rng, 0.2), "pop_ups": rng.random() < 0.3, "mouse": True, "paste": False,
+            "focusrep": False, "swap": None, "sigs": [rng.choice(["ign", "dfl", "py"]) for _ in SIGNALS], "stdin": rng.random() < 0.3,
+            "again": loop in RERUN_LOOPS and rng.random() < 0.6}
+
+
 def cfg_from_behaviour(b, loop):
     st = b[1]
     sc = st["scn"]
     events = [(e["at"], kind_str(e["kind"], e["cut"], e["also"])) for e in sc["events"]]     # already in time order; ties keep the model's order
     f = sc["fault"]
     fault = None if f["kind"] == "none" else (f["kind"], f["idx"], f["exc"])
+    plain = all(not e["cut"] and e["kind"] != "esc" for e in sc["events"])      # Plainly of MainLoop.tla
     return {"loop": loop, "events": events, "fault": fault, "pop_ups": bool(sc["popups"]), "mouse": True,
-            "swap": None if sc["swap"] == "none" else sc["swap"]}
+            "swap": None if sc["swap"] == "none" else sc["swap"], "sigs": [sc["sig0"]] * len(SIGNALS), "stdin": int(sc["infd"]) == 0,
+            "again": bool(sc["again"]) and plain and loop in RERUN_LOOPS}
 
 
 def sig_of(tr, l):
     e = tr["ev"][l - 1]
     cfg = tr["cfg"]
+    changed = [n[3:] for n, b, a in zip(SIGNALS, e.get("sigs_before", ()), e.get("sigs_after", ())) if a != b]
+    second = any(x["t"] == "rerun" for x in tr["ev"][:l])
     return {"loop": cfg["loop"], "legacy_screen": bool(cfg.get("legacy")), "event": e["t"], "fault_kind": cfg["fault"][0] if cfg["fault"] else "none",
-            "fault_exc": cfg["fault"][2] if cfg["fault"] else "none", "outcome": e.get("outcome", ""), "exc": e.get("exc", "")}
+            "fault_exc": cfg["fault"][2] if cfg["fault"] else "none", "outcome": e.get("outcome", ""), "exc": e.get("exc", ""),
+            "stdin": bool(cfg.get("stdin")), "second_run": second, "signals_changed": ",".join(changed),
+            "signals_before": ",".join(e.get("sigs_before", ()))}
 
 
 def _handle(chk, traces, res, label):
@@ -465,6 +580,9 @@ FaultKinds = {fk}
 Cuts = {cuts}
 Also = {also}
 Swaps = {swaps}
+Sig0 = {sig0}
+InFds = {infds}
+Again = {again}
 SPECIFICATION {spec}
 INVARIANT MonitorAccepts
 INVARIANT DoneMeansRestored
@@ -477,23 +595,31 @@ def run(chk):
     rng = chk.rng
     kinds_mc = ["keyH", "keyU", "mouseH", "resize", "alarm", "pipe"]
     fk = ["none"] + CALLBACKS
-    plain = {"cuts": _q([0]), "also": _q(["-"]), "swaps": _q(["none"])}
+    usual = {"sig0": _q(["dfl"]), "infds": _q([3]), "again": "{FALSE}"}      # the surroundings have an exhaustive run of their own (cfg_c)
+    plain = {"cuts": _q([0]), "also": _q(["-"]), "swaps": _q(["none"]), **usual}
     cfg_a = MC_CFG.format(n=2 if quick else 3, bad="", kinds=_q(kinds_mc), times=_q([0, 10]), fk=_q(fk), spec="Spec", **plain)
     # inputs sharing a read, inputs cut in two reads, a lone ESC, the topmost widget replaced from a handler
     if quick:
         cfg_b = MC_CFG.format(n=2, bad="", kinds=_q(["keyH", "keyU", "up", "esc", "resize"]), times=_q([0, 10]), fk=_q(["none", "filter", "unhandled"]),
-                              spec="Spec", cuts=_q([0, 1, 2]), also=_q(["-", "keyU", "keyH"]), swaps=_q(["none", "unhandled", "keypress"]))
+                              spec="Spec", cuts=_q([0, 1, 2]), also=_q(["-", "keyU", "keyH"]), swaps=_q(["none", "unhandled", "keypress"]), **usual)
     else:
         cfg_b = MC_CFG.format(n=2, bad="", kinds=_q(["keyH", "keyU", "up", "mouseH", "meta", "esc", "resize"]), times=_q([0, 10]),
                               fk=_q(["none", "filter", "keypress", "unhandled"]), spec="Spec", cuts=_q([0, 1, 2]),
-                              also=_q(["-", "keyU", "keyH"]), swaps=_q(["none", "unhandled", "keypress", "mouse_event"]))
-    with cf.ThreadPoolExecutor(2) as ex:      # the two exhaustive runs overlap
-        fb = ex.submit(tlc.mc, "MainLoop", cfg_b, workers=3 if quick else 6, timeout=3000, heap="8g")
-        r = tlc.mc("MainLoop", cfg_a, workers=3 if quick else 6, timeout=3000, heap="12g")
-        r2 = fb.result()
+                              also=_q(["-", "keyU", "keyH"]), swaps=_q(["none", "unhandled", "keypress", "mouse_event"]), **usual)
+    # what the session finds and how it is run: signal dispositions, the terminal on descriptor 0, forced repaints, run() called twice
+    cfg_c = MC_CFG.format(n=2, bad="", kinds=_q(["keyH", "ctrlL", "resize", "alarm"] if quick else ["keyH", "keyU", "ctrlL", "resize", "alarm", "pipe"]),
+                          times=_q([0, 10]), fk=_q(["none", "keypress", "alarm"] if quick else ["none", "keypress", "alarm", "render", "filter"]),
+                          spec="Spec", cuts=_q([0]), also=_q(["-"]), swaps=_q(["none"]), sig0=_q(["ign", "py"] if quick else ["ign", "dfl", "py"]),
+                          infds=_q([0, 3]), again="{FALSE, TRUE}")
+    with cf.ThreadPoolExecutor(2) as ex:      # the exhaustive runs overlap
+        fb = ex.submit(tlc.mc, "MainLoop", cfg_b, workers=3 if quick else 2, timeout=3000, heap="8g")
+        fc = ex.submit(tlc.mc, "MainLoop", cfg_c, workers=2, timeout=3000, heap="8g")
+        r = tlc.mc("MainLoop", cfg_a, workers=1 if quick else 2, timeout=3000, heap="12g")
+        r2, r3 = fb.result(), fc.result()
     chk.add_mc("MC_MainLoop_design", r)
     chk.add_mc("MC_MainLoop_design_shared_and_split_reads", r2)
-    for rr in (r, r2):
+    chk.add_mc("MC_MainLoop_design_signals_stdin_forced_repaint_second_run", r3)
+    for rr in (r, r2, r3):
         if not rr.ok:
             chk.reject("C12.model." + str(rr.violated), {"model": "MainLoop"}, {"tlc_trace": rr.trace[-6:]})
     refuted = {}
@@ -501,28 +627,27 @@ def run(chk):
     def refute(bad):
         if bad == "staleTop":
             c = MC_CFG.format(n=1, bad=bad, kinds=_q(["keyH", "keyU"]), times=_q([0]), fk=_q(["none"]), spec="Spec", cuts=_q([0]),
-                              also=_q(["-", "keyU", "keyH"]), swaps=_q(["none", "unhandled", "keypress"]))
+                              also=_q(["-", "keyU", "keyH"]), swaps=_q(["none", "unhandled", "keypress"]), **usual)
         elif bad == "noInputTimer":
             c = MC_CFG.format(n=1, bad=bad, kinds=_q(["keyU", "esc"]), times=_q([0]), fk=_q(["none"]), spec="Spec", cuts=_q([0]),
-                              also=_q(["-", "keyU"]), swaps=_q(["none"]))
+                              also=_q(["-", "keyU"]), swaps=_q(["none"]), **usual)
         elif bad == "staleInputTimer":
             c = MC_CFG.format(n=1, bad=bad, kinds=_q(["keyU", "up"]), times=_q([0]), fk=_q(["none"]), spec="Spec", cuts=_q([0, 1]),
-                              also=_q(["-"]), swaps=_q(["none"]))
+                              also=_q(["-"]), swaps=_q(["none"]), **usual)
+        elif bad in ("restoreDefault", "cachedCanvasOnly", "fdZeroIsNone"):
+            c = MC_CFG.format(n=1, bad=bad, kinds=_q(["keyH", "ctrlL"]), times=_q([0]), fk=_q(["none", "keypress"]), spec="Spec", cuts=_q([0]), also=_q(["-"]),
+                              swaps=_q(["none"]), sig0=_q(["ign", "dfl", "py"]), infds=_q([0, 3]), again="{FALSE, TRUE}")
         else:
             c = MC_CFG.format(n=2, bad=bad, kinds=_q(["keyH", "keyU", "alarm"]), times=_q([0]), fk=_q(["none", "keypress", "alarm"]), spec="Spec", **plain)
-        return bad, tlc.mc("MainLoop", c, workers=2, timeout=900)
+        return bad, tlc.mc("MainLoop", c, workers=1, timeout=900)
 
-    with cf.ThreadPoolExecutor(3) as ex:
-        bad_runs = list(ex.map(refute, ("noStopOnError", "skipUnhandled", "noRedraw", "staleTop", "staleInputTimer", "noInputTimer")))
-    for bad, rb in bad_runs:
-        refuted[bad] = rb.violated is not None
-        chk.cov["tlc_runs"].append({"run": f"MC_MainLoop_bad_{bad}_must_fail", "violated": rb.violated, "generated": rb.generated})
-    chk.cov["contract_refutes_bad_designs"] = refuted
-    if not all(refuted.values()):
-        raise tlc.MachineryError(f"MainLoop.tla no longer refutes a deliberately wrong main loop: {refuted}")
+    pool = cf.ThreadPoolExecutor(4)      # small state spaces, one worker each; the simulation and the sessions below run next to them
+    bad_futs = [pool.submit(refute, bad) for bad in ("noStopOnError", "skipUnhandled", "noRedraw", "staleTop", "staleInputTimer", "noInputTimer",
+                                                     "restoreDefault", "cachedCanvasOnly", "fdZeroIsNone")]
     # ---- spec -> code: TLC sessions on the real MainLoop ------------------------------------------
     simcfg = MC_CFG.format(n=3, bad="", kinds=_q(KINDS + ["meta", "esc"]), times=_q([0, 10, 20]), fk=_q(fk), spec="SimSpec", cuts=_q([0, 0, 1, 2, 4]),
-                           also=_q(["-", "-", "keyH", "keyU", "mouseU"]), swaps=_q(["none", "none"] + SWAPS))
+                           also=_q(["-", "-", "keyH", "keyU", "mouseU"]), swaps=_q(["none", "none"] + SWAPS), sig0=_q(["ign", "dfl", "py"]), infds=_q([0, 3]),
+                           again="{FALSE, TRUE}")
     behs = tlc.simulate("MainLoop", simcfg, num=40 if quick else 1500, depth=3, seed=chk.seed, jobs=2 if quick else 8, timeout=1500)
     cfgs = []
     loops_q = ["select", "asyncio"] if quick else LOOPS
@@ -539,6 +664,7 @@ def run(chk):
     for i in range(n_legacy):
         c = random_cfg(rng, "select")
         c["legacy"] = True
+        c["again"] = False
         c["events"] = [(ms, k) for ms, k in c["events"] if k not in ("pipe", "resize")] or [(10, "keyU")]
         if c["fault"] and c["fault"][0] == "pipe":
             c["fault"] = ("unhandled", 1, c["fault"][2])
@@ -549,7 +675,20 @@ def run(chk):
         cfgs.append(batch_cfg(rng, LOOPS[i % len(LOOPS)]))
         cfgs.append(split_cfg(rng, LOOPS[(i + 3) % len(LOOPS)] if i % 2 else LOOPS[i % len(LOOPS)]))
     chk.cov["shared_read_sessions"] = chk.cov["split_read_sessions"] = n_fam
+    n_res, n_red = (60, 48) if quick else (1500, 1200)
+    for i in range(n_res):
+        cfgs.append(restore_cfg(rng, LOOPS[i % len(LOOPS)]))
+    for i in range(n_red):
+        cfgs.append(redraw_cfg(rng, LOOPS[i % len(LOOPS)] if i % 3 else RERUN_LOOPS[(i // 3) % len(RERUN_LOOPS)]))
+    chk.cov["restoration_sessions"], chk.cov["forced_repaint_sessions"] = n_res, n_red
     results = run_sessions(cfgs)
+    for bad, rb in [bf.result() for bf in bad_futs]:
+        refuted[bad] = rb.violated is not None
+        chk.cov["tlc_runs"].append({"run": f"MC_MainLoop_bad_{bad}_must_fail", "violated": rb.violated, "generated": rb.generated})
+    pool.shutdown()
+    chk.cov["contract_refutes_bad_designs"] = refuted
+    if not all(refuted.values()):
+        raise tlc.MachineryError(f"MainLoop.tla no longer refutes a deliberately wrong main loop: {refuted}")
     traces = []
     errors = [r for r in results if r is None or "error" in r]
     if errors:
@@ -573,8 +712,10 @@ def run(chk):
     chk.cov["clause_counts"] = kinds
     chk.cov["distinct_nontrivial"] = len(nontriv)
     chk.cov["rule"] = ("session = timed inputs (keys, mouse, resize, alarms, pipe writes) + one injected fault (callback kind, invocation index, "
-                       "ExitMainLoop|error); run in a forked child on a real pty with the real Screen and MainLoop under each event loop; "
-                       "non-trivial = distinct sessions whose injected fault actually fired")
+                       "ExitMainLoop|error|BaseException) + what the process had before run() (SIGWINCH/SIGTSTP/SIGCONT ignored, default or handled; "
+                       "terminal on descriptor 0 or another one) + run() called once or twice; run in a forked child on a real pty with the real "
+                       "Screen and MainLoop under each event loop; the bytes written are interpreted by the reference terminal in the order in "
+                       "which they were written between the other events; non-trivial = distinct sessions whose injected fault actually fired")
     chk.cov["bounds"] = {"tlc_sessions": len(behs), "random_sessions": n_rand, "loops": loops_q if quick else LOOPS}
     for cb in CALLBACKS:
         if not any(k.startswith(f"fault.{cb}.") for k in kinds):
@@ -582,12 +723,40 @@ def run(chk):
     # the new families must have happened (counts only, no verdict): an input offered to the widget after the topmost widget was
     # replaced earlier in the same batch; a split input completed by a second read; a lone ESC delivered by the screen's timer
     fam = {"input_after_swap_in_same_batch": 0, "input_after_swap_in_same_batch.pop_ups_off": 0, "split_input_completed": 0, "lone_esc_delivered": 0,
-           "swap.keypress": 0, "swap.mouse_event": 0, "swap.unhandled": 0, "swap.alarm": 0}
+           "swap.keypress": 0, "swap.mouse_event": 0, "swap.unhandled": 0, "swap.alarm": 0,
+           # a full repaint asked for (screen.clear(), two resizes back to the old size) and the next draw is handed the canvas drawn last
+           "forced_repaint_of_unchanged_widget.clear": 0, "forced_repaint_of_unchanged_widget.resize": 0,
+           "second_run": 0, "second_run_after_error": 0, "second_run_first_draw_of_unchanged_widget": 0}
+    for name in SIGNALS:
+        for d in ("ign", "dfl", "py"):
+            fam[f"before_run.{name}.{d}"] = 0
+    for lp in LOOPS:
+        fam[f"terminal_on_stdin.ended_by_error.{lp}"] = 0
+        fam[f"terminal_on_stdin.ended_by_exit.{lp}"] = 0
     for t in traces:
         swapped_in_batch = part = held = False
         last_cb = None
+        last_gen, forced, fresh_run, errored = None, None, False, False
         for e in t["ev"]:
             k = e["t"]
+            if k == "draw":
+                if forced and e["gen"] == last_gen:
+                    fam["forced_repaint_of_unchanged_widget." + forced] += 1
+                if fresh_run and e["gen"] == last_gen:
+                    fam["second_run_first_draw_of_unchanged_widget"] += 1
+                last_gen, forced, fresh_run = e["gen"], None, False
+            elif k == "clear":
+                forced = "clear"
+            elif k == "arrive_resize":
+                forced = "resize"
+            elif k == "raise":
+                forced = None
+            elif k == "run_end":
+                errored = e["outcome"] == "raise"
+            elif k == "rerun":
+                fam["second_run"] += 1
+                fam["second_run_after_error"] += errored
+                fresh_run, forced = True, None
             if k == "filter":
                 swapped_in_batch = False
                 if part and e["keys"] and e["keys"] != ["window resize"]:
@@ -609,6 +778,13 @@ def run(chk):
                     fam["input_after_swap_in_same_batch.pop_ups_off"] += 1
             if k in ("keypress", "mouse_event", "unhandled", "alarm"):
                 last_cb = k
+        finals = [e for e in t["ev"] if e["t"] == "final"]
+        ends = [e for e in t["ev"] if e["t"] == "run_end"]
+        if finals:
+            for name, d in zip(SIGNALS, finals[0]["sigs_before"]):
+                fam[f"before_run.{name}.{d}"] += 1
+            if t["cfg"].get("stdin") and not t["cfg"].get("legacy"):
+                fam[f"terminal_on_stdin.ended_by_{'error' if ends[0]['outcome'] == 'raise' else 'exit'}.{t['cfg']['loop']}"] += 1
     chk.cov["family_counts"] = fam
     for k, v in fam.items():
         if not v:
@@ -617,7 +793,9 @@ def run(chk):
     chk.cov["trusted_base"] = ["TLC", "Terminal.tla mode tracking", "vf/loops.py doubles", "session runner vf/props/c12.py (real pty, fork per session)",
                                "vf/term.py tokeniser"]
     chk.assumptions += ["glib loop, Windows and gpm branches cannot run here", "screens without hook_event_loop use real time and are not covered",
-                        "faults are injected in user callbacks, not inside urwid's own start()/stop()"]
+                        "faults are injected in user callbacks, not inside urwid's own start()/stop()",
+                        "run() is called a second time only on loops that can be run again (select, asyncio, tornado, zmq) and only in sessions without half-typed sequences",
+                        "the program is never suspended (SIGTSTP is not delivered during a session)"]
 
 
 term_kinds = {"put", "zw", "cup", "bs", "cr", "lf", "sgr", "el", "ed", "irm", "so", "si", "desig", "decset", "keypad", "cuu", "cud", "cuf", "cub"}
